@@ -27,7 +27,7 @@ func init() {
 				case strings.HasPrefix(site, "net."):
 					return []string{"reset", "cut", "cancel", "stall"}
 				case strings.HasPrefix(site, "pipe."):
-					return []string{"kill-child", "cancel"}
+					return []string{"kill-child", "exit-child", "cancel"}
 				}
 				return nil
 			},
@@ -69,6 +69,11 @@ func runC08(c *Ctx) {
 		case "kill-child":
 			if cl.Link != nil {
 				cl.Link.Kill()
+			}
+		case "exit-child":
+			// the server process leaves on its own, status 0, whatever is still in flight
+			if cl.Link != nil {
+				cl.Link.ExitClean()
 			}
 		case "stall":
 			// the network stops delivering: everything the server side does from now on takes forever
@@ -160,7 +165,7 @@ func runC08(c *Ctx) {
 		}
 		s.Probe("c08.pending_call_failed." + kind)
 		switch kind {
-		case "reset", "cut", "cancel", "kill-child":
+		case "reset", "cut", "cancel", "kill-child", "exit-child":
 			if r.end != s.FaultTime {
 				s.Violate(fmt.Sprintf("C08|not-prompt|mode=%s|fault=%s|%s", mode, kind, errClass(r.err)),
 					"%s %s was pending when the fault (%s at %q, t=%v) hit and failed only at t=%v (%v later): %v", r.name, r.nonce, kind, s.FaultSite, s.FaultTime, r.end, r.end-s.FaultTime, r.err)
